@@ -530,7 +530,7 @@ def c20(run):
 
 
 FAULT_CLAUSES = {
-    "C13": {"PanicSurfaces", "ProcessDead", "ExecReturns"},
+    "C13": {"PanicSurfaces", "ProcessDead", "ExecReturns", "OthersUnaffected"},
     "C14": {"CancelFinal", "ExecReturns", "NoLeak"},
     "C15": {"ErrorSurfaces"},
     "C17": {"QuerierBeforeExec", "QuerierAfterReturn", "QuerierClosedOnce", "DataUnmodified"},
